@@ -257,7 +257,8 @@ Definition built_doc (cls : Z) (a : sr_args) (root : item) (cu : refs_t * refs_t
       (a_complete a) (a_verified a) (a_final a)
       (if a_verified a
        then match a_observer a, a_org a with Some n, Some o => Some (n, o) | _, _ => None end
-       else None).
+       else None)
+      (record_extras (a_extras a)).
 
 Definition base_guards (a : sr_args) (root : item) (cu : refs_t * refs_t) : Prop :=
   a_evidence a <> [] /\ a_ts_ok a = true /\
